@@ -10,6 +10,14 @@ use bytes::Bytes;
 use std::sync::Arc;
 use std::time::Duration;
 
+/// "Cnn what went wrong" -> "Cnn what_went_wrong": the property id stays a word of its own
+fn tagged(e: &str) -> String {
+    match e.split_once(' ') {
+        Some((t, rest)) => format!("{} {}", t, rest.replace(' ', "_")),
+        None => e.to_string(),
+    }
+}
+
 fn pat(tag: usize, off: usize) -> u8 {
     ((off as u64).wrapping_mul(131).wrapping_add(tag as u64 * 17) % 251) as u8
 }
@@ -150,8 +158,8 @@ pub fn run(seed: u64) -> String {
     match res {
         Err(_) => format!("FAIL C20 hang: not finished after 60 s on a multi-threaded runtime (deadlock or lost wake-up) {}", cfg.replace(' ', ",")),
         Ok(Err(e)) => {
-            let tag = if e.starts_with('C') { "" } else { "C20 " };
-            format!("FAIL {}{} {}", tag, e.replace(' ', "_"), cfg.replace(' ', ","))
+            let e = if e.starts_with('C') { e } else { format!("C20 {}", e) };
+            format!("FAIL {} {}", tagged(&e), cfg.replace(' ', ","))
         }
         Ok(Ok(v)) => format!("ok n={} refused={} {}", v.len(), v.iter().filter(|s| *s == "refused").count(), cfg.replace(' ', ",")),
     }
@@ -293,7 +301,7 @@ pub fn run_idle(seed: u64) -> String {
     rt.shutdown_timeout(Duration::from_millis(200));
     match res {
         Err(_) => format!("FAIL C20 idle-close runs did not finish within 120 s seed={}", seed),
-        Ok(Err(e)) => format!("FAIL {} seed={}", e.replace(' ', "_"), seed),
+        Ok(Err(e)) => format!("FAIL {} seed={}", tagged(&e), seed),
         Ok(Ok(())) => format!("ok idle trials={} seed={}", trials, seed),
     }
 }
